@@ -3,7 +3,7 @@
 with meta.json (only if /tmp/seedchk/<name>.result says OK)."""
 import json, os, shutil, sys
 for name in sys.argv[1:]:
-    src = '/tmp/mut/out/' + name
+    src = os.environ.get('SEED_SRC', '/tmp/mut/out') + '/' + name
     res = '/tmp/seedchk/%s.result' % name
     if not os.path.exists(res) or not open(res).read().startswith('OK'):
         print(name, 'not confirmed:', open(res).read().strip() if os.path.exists(res) else 'no result')
